@@ -110,17 +110,26 @@ impl ISocketConnection for ZmtpSmartConnection {
       Err(fibre::TrySendError::Full(_)) if self.sndtimeo == Some(Duration::ZERO) => {
         Err(ZmqError::ResourceLimitReached)
       }
-      Err(fibre::TrySendError::Full(returned_msgs)) => {
-        let timeout_duration = self.sndtimeo.unwrap_or(Duration::from_secs(30));
-        match tokio::time::timeout(timeout_duration, self.egress_tx.send(returned_msgs)).await {
-          Ok(Ok(())) => {
+      // SNDTIMEO = -1 (None) waits until there is room; only a positive SNDTIMEO bounds the wait.
+      Err(fibre::TrySendError::Full(returned_msgs)) => match self.sndtimeo {
+        None => match self.egress_tx.send(returned_msgs).await {
+          Ok(()) => {
             self.signal_worker();
             Ok(())
           }
-          Ok(Err(_)) => Err(ZmqError::ConnectionClosed),
-          Err(_) => Err(ZmqError::ResourceLimitReached),
+          Err(_) => Err(ZmqError::ConnectionClosed),
+        },
+        Some(timeout_duration) => {
+          match tokio::time::timeout(timeout_duration, self.egress_tx.send(returned_msgs)).await {
+            Ok(Ok(())) => {
+              self.signal_worker();
+              Ok(())
+            }
+            Ok(Err(_)) => Err(ZmqError::ConnectionClosed),
+            Err(_) => Err(ZmqError::ResourceLimitReached),
+          }
         }
-      }
+      },
       _ => unreachable!(),
     }
   }
@@ -135,17 +144,25 @@ impl ISocketConnection for ZmtpSmartConnection {
       Err(fibre::TrySendError::Full(returned)) if self.sndtimeo == Some(Duration::ZERO) => {
         Err((returned, ZmqError::ResourceLimitReached))
       }
-      Err(fibre::TrySendError::Full(returned)) => {
-        let timeout_duration = self.sndtimeo.unwrap_or(Duration::from_secs(30));
-        match tokio::time::timeout(timeout_duration, self.egress_tx.send(returned)).await {
-          Ok(Ok(())) => {
+      Err(fibre::TrySendError::Full(returned)) => match self.sndtimeo {
+        None => match self.egress_tx.send(returned).await {
+          Ok(()) => {
             self.signal_worker();
             Ok(())
           }
-          Ok(Err(_)) => Err((FrameBatch::new(), ZmqError::ConnectionClosed)),
-          Err(_) => Err((FrameBatch::new(), ZmqError::Timeout)),
+          Err(_) => Err((FrameBatch::new(), ZmqError::ConnectionClosed)),
+        },
+        Some(timeout_duration) => {
+          match tokio::time::timeout(timeout_duration, self.egress_tx.send(returned)).await {
+            Ok(Ok(())) => {
+              self.signal_worker();
+              Ok(())
+            }
+            Ok(Err(_)) => Err((FrameBatch::new(), ZmqError::ConnectionClosed)),
+            Err(_) => Err((FrameBatch::new(), ZmqError::Timeout)),
+          }
         }
-      }
+      },
       _ => unreachable!(),
     }
   }
